@@ -6,5 +6,5 @@ out=$(WT_OVERRIDE=${MUTROOT:-/tmp/mut}/$wt /verif/tools/try_seeded.sh $prop ${MU
 clean=$(echo "$out" | sed -n '/== demo on unmodified tree/,/== apply patch/p' | grep -E "^(ok|FAIL|---)" | head -2 | tr '\n' ' ')
 build=$(echo "$out" | sed -n '/== apply patch/,/== demo with patch/p' | grep -vE "^==" | head -3 | tr '\n' ' ')
 patched=$(echo "$out" | sed -n '/== demo with patch/,/== my check/p' | grep -E "^(ok|FAIL)" | head -2 | tr '\n' ' ')
-chk=$(echo "$out" | sed -n '/== my check/,$p' | grep -E "runs \(|class=|check exit|DOES-NOT" | cut -c1-200 | head -4)
+chk=$(echo "$out" | sed -n '/== my check/,$p' | grep -E "runs \(|class=|check exit|DOES-NOT|three-way" | cut -c1-200 | head -4)
 echo "##### $prop $wt/$m pkg=$pk"; echo "  demo clean: $clean"; echo "  build/tests with patch: ${build:-ok}"; echo "  demo patched: $patched"; echo "$chk" | sed 's/^/  /'
